@@ -241,4 +241,22 @@ PROPS = {
             {"engine": "vt", "quick": 6400, "thorough": 400000, "what": "E-A: owner tasks under the poll interposer"},
         ],
     },
+    "C12": {
+        "level": "exploration",
+        "technique": "runtime monitoring on a virtual clock: every timer closure stamps its firing with the virtual Instant (never-early to the nanosecond, exact due time to the millisecond, k-th interval tick at k periods), handler-side delivery log for exactly-once / order, handle results, abort and target-exit times on the same grid; real-clock smoke for the no-drift clause",
+        "level_text": ("Exploration: 1-12 timers per scenario (send_after, send_interval, exit_after, kill_after; ActorRef and DerivedActorRef "
+                       "variants) with periods {0, 1ns, 1ms, 7ms, 1s, 1h}, created / aborted / target-exited at instants of one grid (so "
+                       "abort-at-expiry and exit-at-expiry coincide exactly), busy targets, on three time scales up to 4 virtual hours; the "
+                       "poll interposer decides which ready task runs at a boundary. A separate real-clock run (300 ms, 2-4 ms periods) "
+                       "observes that a busy target or scheduling delay does not make interval ticks drift. Held on what was observed."),
+        "level_note": ("Interval periods below 1 ms are not exercised: under a paused clock such a timer never lets virtual time advance "
+                       "(documented bound; one-shot timers do use 0 and 1 ns). Drift is invisible under a paused clock, hence the real-clock run."),
+        "rule": ("non-trivial = >= 1 timer fired and the scenario contains an abort or a target exit; distinct = hash(#firings, #deliveries, "
+                 "scenario parameters)."),
+        "assumptions": ["tokio's paused clock advances exactly to the next timer deadline (1 ms wheel granularity)"],
+        "runs": [
+            {"engine": "vt", "quick": 12000, "thorough": 800000, "what": "E-A: virtual-clock timer scenarios"},
+            {"engine": "rt", "quick": 32, "thorough": 640, "what": "real-clock no-drift smoke (interval catches up after delays; never early)"},
+        ],
+    },
 }
